@@ -61,13 +61,13 @@ class OrOperation(BoolOperation):
         cancel_futures = set()
 
         # If it's the last result or it's a successful result:
-        if (not self.fs) or (not f.cancelled() and not f.exception() and f.result()):
+        if (not self.fs) or (not f.cancelled() and f.exception() is None and f.result()):
             self.done = True
             cancel_futures = list(self.fs.keys())
             if f.cancelled():
                 # Cancelled => output is cancelled
                 cancel_futures.append(self.out)
-            elif f.exception():
+            elif f.exception() is not None:
                 # Failed
                 set_exception = True
             else:
@@ -123,7 +123,7 @@ class AndOperation(BoolOperation):
             self.done = True
             cancel_futures = list(self.fs.keys())
             cancel_futures.append(self.out)
-        elif f.exception():
+        elif f.exception() is not None:
             # Failed => we're done
             self.done = True
             set_exception = True
